@@ -126,6 +126,11 @@ func (c *syncClientImpl) List(ctx context.Context, minKeyInclusive string, maxKe
 		keys = append(keys, r.Keys...)
 	}
 
+	if err := ctx.Err(); err != nil {
+		// The shards stop answering when the context is done: what was collected is not the full list
+		return nil, err
+	}
+
 	return keys, nil
 }
 
